@@ -1,5 +1,5 @@
 # replay of a bounded stand-in violation (C13): re-run native/c13_tdm.py
 import sys
-print("calls ('lock', 'space1', 'lock'): the program no longer runs: IndexError: list index out of range")
+print('delays=[2], leading identity bins per loop=[1]: cropped samples have shape (1, 1, 10), expected (1, 1, 9)')
 print('REPLAY-VIOLATION')
 sys.exit(1)
